@@ -42,6 +42,7 @@ def shards(tier: str, seed: int) -> list:
 def _classes(n: int, seed: int):
     rng = np.random.default_rng([seed, n])
     yield "constant", np.full(n, 3.25, dtype=np.float32)
+    yield "zeros", np.zeros(n, dtype=np.float32)
     if n <= 32:
         for p in range(n):
             x = np.zeros(n, dtype=np.float32)
@@ -95,7 +96,7 @@ def _series(shard, ctx, res, only):
             D = (xp[None, :] * np.exp(-2j * np.pi * k * t / ng)).sum(1)
             dev = float(np.max(np.abs(X - D)))
             res.maximum("dft_dev_over_limit", dev / lim)
-            if dev > lim:
+            if not (dev <= lim):
                 res.violation({"site": "TimeSeries.rfft", "symptom": "spectrum differs from the discrete Fourier sum"}, case, f"n={n} n_fft={ng} max dev {dev:.3e} limit {lim:.3e}")
                 continue
             res.outcome("dft/ok")
@@ -108,7 +109,7 @@ def _series(shard, ctx, res, only):
             e_f = float((w * np.abs(X) ** 2).sum() / ng)
             plim = 64 * EPS32 * np.log2(n + 1) * max(e_t, 1e-30)
             res.maximum("parseval_dev_over_limit", abs(e_t - e_f) / plim)
-            if abs(e_t - e_f) > plim:
+            if not (abs(e_t - e_f) <= plim):
                 res.violation({"site": "TimeSeries.rfft", "symptom": "Parseval identity violated"}, case, f"time {e_t!r} freq {e_f!r}")
                 continue
             res.outcome("parseval/ok")
@@ -117,7 +118,7 @@ def _series(shard, ctx, res, only):
             try:
                 ms = np.asarray(fs.form_spec().data, dtype=np.float64)
                 mdev = float(np.max(np.abs(ms - np.abs(np.asarray(fs.data, dtype=np.complex128)))))
-                if ms.shape != (X.size,) or mdev > 4 * EPS32 * max(float(np.max(np.abs(X))), 1e-30):
+                if ms.shape != (X.size,) or not (mdev <= 4 * EPS32 * max(float(np.max(np.abs(X))), 1e-30)):
                     res.violation({"site": "FourierSeries.form_spec", "symptom": "amplitude spectrum differs from |bin|"}, case, f"max dev {mdev:.3e}")
                 else:
                     res.outcome("mspec/ok")
@@ -137,13 +138,13 @@ def _series(shard, ctx, res, only):
                 continue
             rdev = float(np.max(np.abs(b - xp)))
             res.maximum("roundtrip_dev_over_limit", rdev / lim)
-            if rdev > lim:
+            if not (rdev <= lim):
                 res.violation({"site": "FourierSeries.ifft", "symptom": "round trip differs from the zero-padded input"}, case, f"n={n} max dev {rdev:.3e} limit {lim:.3e}")
                 continue
             # user-supplied transforms (documented signatures fftn(array, n), ifftn(array, n)) must give the same round trip
             try:
                 b2 = np.asarray(ts.rfft(np.fft.rfft).ifft(np.fft.irfft).data, dtype=np.float64)
-                if b2.shape != (ng,) or float(np.max(np.abs(b2 - xp))) > lim:
+                if b2.shape != (ng,) or not (float(np.max(np.abs(b2 - xp))) <= lim):
                     res.violation({"site": "TimeSeries.rfft/FourierSeries.ifft", "symptom": "round trip with user-supplied numpy transforms differs from the zero-padded input"}, case,
                                   f"n={n} n_fft={ng} got length {b2.shape}")
                     continue
@@ -167,13 +168,21 @@ def _conv(shard, ctx, res, only):
     n = shard["n"]
     rng = np.random.default_rng([ctx.seed, n, 7])
     for m in range(1, n + 1):
-        for cname in ("normal", "dynamic", "impulse_edges"):
+        for cname in ("normal", "dynamic", "impulse_edges", "zero_kernel", "zero_both", "tiny", "huge"):
             if only is not None and [m, cname] != only:
                 continue
             if cname == "normal":
                 a, b = rng.normal(0, 1, n).astype(np.float32), rng.normal(0, 1, m).astype(np.float32)
             elif cname == "dynamic":
                 a, b = (1e4 + rng.normal(0, 1, n)).astype(np.float32), rng.uniform(0, 1, m).astype(np.float32)
+            elif cname == "zero_kernel":
+                a, b = rng.normal(0, 1, n).astype(np.float32), np.zeros(m, dtype=np.float32)
+            elif cname == "zero_both":
+                a, b = np.zeros(n, dtype=np.float32), np.zeros(m, dtype=np.float32)
+            elif cname == "tiny":
+                a, b = (1e-12 * rng.normal(0, 1, n)).astype(np.float32), (1e-12 * rng.normal(0, 1, m)).astype(np.float32)
+            elif cname == "huge":
+                a, b = (1e12 * rng.normal(0, 1, n)).astype(np.float32), (1e3 * rng.normal(0, 1, m)).astype(np.float32)
             else:
                 a = np.zeros(n, dtype=np.float32)
                 a[0], a[-1] = 1.0, a[-1] + 2.0
@@ -194,7 +203,7 @@ def _conv(shard, ctx, res, only):
                 continue
             dev = max(float(np.max(np.abs(got - want))), float(np.max(np.abs(got2 - want))))
             res.maximum("convolve_dev_over_limit", dev / lim)
-            if dev > lim:
+            if not (dev <= lim):
                 res.violation({"site": "kernels.fftconvolve", "symptom": "differs from the full linear convolution"}, case, f"n={n} m={m} max dev {dev:.3e} limit {lim:.3e}")
                 continue
             res.outcome("convolve/ok")
@@ -215,7 +224,7 @@ def _conv(shard, ctx, res, only):
                 continue
             devc = max(float(np.max(np.abs(g1 - wantc))), float(np.max(np.abs(g2 - wantc))))
             res.maximum("correlate_dev_over_limit", devc / lim)
-            if devc > lim:
+            if not (devc <= lim):
                 res.violation({"site": "TimeSeries.correlate", "symptom": "differs from the full correlation at lags -(m-1)..n-1"}, case,
                               f"n={n} m={m} max dev {devc:.3e} limit {lim:.3e}")
                 continue
